@@ -39,10 +39,12 @@ def _bins(rng, style, anti, nx=45):
 
 def _cohort(rng, ideal=False):
     style = rng.choice(["chr", ""])
-    k = rng.randint(2, 6) if ideal else rng.randint(1, 8)
+    k = rng.randint(3, 6) if ideal else rng.randint(1, 8)
     hapx = rng.random() < .5
     with_anti = rng.random() < .6
     given = rng.choice([None, "true", "false"])
+    if ideal and rng.random() < 0.6:
+        given = None  # mixed-sex cohort with inferred sexes: the case where the sex shift of one sample could leak into another
     one_sex = rng.random() < .5
     # sex inference needs >= 40 X bins (C15); with given sexes small tables do
     nx = rng.randint(45, 50) if given is None else rng.randint(3, 8)
@@ -58,6 +60,8 @@ def _cohort(rng, ideal=False):
     samples = []
     for s in range(k):
         fem = rng.random() < .5
+        if ideal and given is None:
+            fem = (s != 0)  # one male among females; file names (random prefix) decide the processing order
         if ideal and given is not None:
             fem = (given == "true")   # do_reference takes ONE sex for all samples when it is given
         scale = g8(rng.gauss(0, 1))
